@@ -37,6 +37,8 @@ OPS = {
                   ["(hi : AL.get? s.nodes n = some i)", "(hk : i.kind = .junction)"], ""),
     "addFire": ("Demand", "(s : Reg) (n p : Name) (i : NodeInfo)", "addFireR s n p i",
                 ["(hi : AL.get? s.nodes n = some i)", "(hk : i.kind = .junction)"], ""),
+    "insertDemand": ("Demand", "(s : Reg) (n : Name) (idx : Nat) (pat : Option Name) (i : NodeInfo)", "insertDemandR s n idx pat i",
+                     ["(hi : AL.get? s.nodes n = some i)", "(hk : i.kind = .junction)"], ""),
     "clearDemands": ("Demand", "(s : Reg) (n : Name) (i : NodeInfo)", "clearDemandsR s n i",
                      ["(hi : AL.get? s.nodes n = some i)", "(hk : i.kind = .junction)"], ""),
     "renameSource": ("RemoveOther", "(s : Reg) (old new : Name) (si : SourceInfo)", "renameSourceR s old new si",
@@ -84,7 +86,8 @@ SUPPORT = {
 }
 # (op, clause) -> full replacement of the closing tactic (after reg_norm)
 CUSTOM = {
-    ("delDemand", "usagePatNodes"): "have he : ∀ d, d ∈ i.demands.eraseIdx idx → d ∈ i.demands := fun d h => List.mem_of_mem_eraseIdx h\n  grind",
+    ("delDemand", "usagePatNodes"): "have he : ∀ d, d ∈ i.demands.eraseIdx idx → d ∈ i.demands := fun d h => List.mem_of_mem_eraseIdx h\n  have hd := droppedPat_spec i.demands idx\n  grind",
+    ("insertDemand", "usagePatNodes"): "have ht : ∀ d, d ∈ i.demands.take idx → d ∈ i.demands := fun d h => List.mem_of_mem_take h\n  have hdr : ∀ d, d ∈ i.demands.drop idx → d ∈ i.demands := fun d h => List.mem_of_mem_drop h\n  grind",
 }
 
 try:
